@@ -1,21 +1,28 @@
 import GoframeModel.Std.Csv
 import GoframeModel.Spec.Table
+import GoframeModel.Lemmas.Csv
 /-
   C10 — CSV import types every cell by one rule and rejects malformed input.
   `encoding/csv` is modelled (Std/Csv.lean); these theorems are about goframe's use of it.
 -/
 namespace Goframe.C10
-open Goframe Frame Csv
+open Goframe Frame Csv CsvLemmas
 
 /-- no input makes the import panic -/
 theorem fromCSV_total (ω : Oracle) (bytes : List UInt8) : (fromCSV ω bytes).isPanic = false := by
-  sorry
+  unfold fromCSV
+  split
+  · rfl
+  · rfl
+  · split <;> rfl
 
 /-- the one typing rule: a cell is a float64 exactly when its trimmed text parses, else the trimmed text -/
 theorem typeCell_rule (ω : Oracle) (s : Str) :
     (∀ v, ω.parseFloat (ω.trim s) = some v → typeCell ω s = .flt false v) ∧
     (ω.parseFloat (ω.trim s) = none → typeCell ω s = .str (ω.trim s)) := by
-  sorry
+  constructor
+  · intro v hv; simp [typeCell, hv]
+  · intro hv; simp [typeCell, hv]
 
 /-- a successful import is rectangular, has one column per header field stored under its own name, one
 row per data record in input order, and every cell is typed by the rule -/
@@ -24,24 +31,88 @@ theorem fromCSV_ok_spec (ω : Oracle) (bytes : List UInt8) (f : Frame) (h : from
       f.Sorted ∧ f.RectN recs.length ∧ f.keys = Spec.sortNames hdr ∧
       ∀ j name, hdr[j]? = some name →
         f.get? name = some { name := name, data := recs.map (fun r => typeCell ω (r.getD j [])) } := by
-  sorry
+  unfold fromCSV at h
+  split at h
+  · cases h
+  · cases h
+  · rename_i hdr recs hread
+    split at h
+    · cases h
+    · rename_i hdup
+      have hdup' : hasDup hdr = false := by simpa using hdup
+      refine ⟨hdr, recs, hread, hdup', ?_⟩
+      have hf := Outcome.ok.inj h
+      have hkeys : (hdr.zipIdx.map (fun (x : Str × Nat) =>
+          (x.1, ({ name := x.1, data := recs.map (fun r => typeCell ω (r.getD x.2 [])) } : Col)))).map
+            (·.1) = hdr := by
+        simp [List.map_map, Function.comp_def]
+      obtain ⟨h1, h2, h3⟩ := foldl_insertCol
+        (hdr.zipIdx.map (fun (x : Str × Nat) =>
+          (x.1, ({ name := x.1, data := recs.map (fun r => typeCell ω (r.getD x.2 [])) } : Col))))
+        [] (by simp [Frame.Sorted])
+        (by rw [hkeys]; exact (hasDup_false_iff hdr).mp hdup') (by simp)
+      rw [hf] at h1 h2 h3
+      refine ⟨h1, ?_, ?_, ?_⟩
+      · intro kc hkc
+        rcases (h2 kc).mp hkc with hm | hm
+        · obtain ⟨x, _, rfl⟩ := List.mem_map.mp hm
+          simp
+        · cases hm
+      · rw [h3, hkeys]; rfl
+      · intro j name hj
+        apply get?_of_mem h1
+        apply (h2 _).mpr
+        left
+        apply List.mem_map.mpr
+        exact ⟨(name, j), List.mem_zipIdx_iff_getElem?.mpr hj, rfl⟩
 
 /-- the import fails exactly when the reader fails, the input holds no record, or a header name repeats -/
 theorem fromCSV_err_iff (ω : Oracle) (bytes : List UInt8) :
     (fromCSV ω bytes).isErr = true ↔
       ((∃ e, readAll bytes = .error e) ∨ readAll bytes = .ok [] ∨
        ∃ hdr recs, readAll bytes = .ok (hdr :: recs) ∧ hasDup hdr = true) := by
-  sorry
+  unfold fromCSV
+  split
+  · rename_i e he
+    simp [Outcome.isErr, he]
+  · rename_i he
+    simp [Outcome.isErr, he]
+  · rename_i hdr recs he
+    rw [he]
+    cases hd : hasDup hdr <;> simp [Outcome.isErr, hd]
 
 /-- the reader never returns records of different lengths (ragged input is an error) -/
 theorem reader_rejects_ragged (bytes : List UInt8) (rs : List (List Str)) (h : readAll bytes = .ok rs) :
     ∀ r ∈ rs, r.length = (rs.headD []).length := by
-  sorry
+  unfold readAll at h
+  split at h
+  · cases h
+  · rename_i rs' _
+    split at h
+    · rename_i hok
+      have := Res.ok.inj h
+      subst this
+      cases rs' with
+      | nil => intro r hr; cases hr
+      | cons r0 rest =>
+        intro r hr
+        rcases List.mem_cons.mp hr with rfl | hr
+        · rfl
+        · simp only [fieldCountOk, List.all_eq_true] at hok
+          simpa using hok r hr
+    · cases h
 
 /-- a quote that is opened and never closed is an error -/
 theorem reader_rejects_unterminated_quote (body : Str) (hb : cQuote ∉ body) :
     ∃ e, readAll (cQuote :: body) = .error e := by
-  sorry
+  refine ⟨.quote, ?_⟩
+  unfold readAll
+  rw [normalise_cons_ne cQuote body (by decide)]
+  have hn : cQuote ∉ normalise body := fun hm => hb (mem_of_mem_normalise body _ hm)
+  have : machine .recStart [] [] [] (cQuote :: normalise body) = .error .quote := by
+    rw [machine, if_neg (by decide), if_pos rfl]
+    exact machine_quoted_noquote _ _ _ _ hn
+  rw [this]
 
 /-- a bare quote inside an unquoted field is an error -/
 example : readAll [97, 34, 98, 10] = .error .bareQuote := by decide
